@@ -2,6 +2,7 @@ package checks
 
 import (
 	"fmt"
+	"os"
 	"strings"
 
 	"github.com/gogpu/naga/ir"
@@ -227,6 +228,10 @@ func c07Program(r *explore.Run, p *prog) {
 	if p.Case == nil {
 		return
 	}
+	if p.Case.Family == "F3x" || p.Case.Family == "F3xt" {
+		c07xProgram(r, p) // static-only family (f16, atomics, attribute spellings): c07x.go
+		return
+	}
 	m, _, err, pn := nagax.Front(p.Src)
 	if err != nil || pn != nil {
 		r.Skip("front end rejected/panicked (C08/C10)")
@@ -247,11 +252,23 @@ func c07Program(r *explore.Run, p *prog) {
 func runC07() int {
 	r := explore.New("C07")
 	fam := wgen.F3(r.Thorough())
-	forEachProgram(r, []*wgen.Family{fam}, nil, func(p *prog) { c07Program(r, p) })
+	famx := wgen.F3x(r.Thorough())
+	fams := []*wgen.Family{fam, famx}
+	if only := os.Getenv("VERIF_C07_FAMILY"); only != "" { // authoring aid (no registered command sets it): run one family only
+		fams = nil
+		for _, f := range []*wgen.Family{fam, famx} {
+			if f.Name == only {
+				fams = append(fams, f)
+			}
+		}
+		r.NotExhaustive("VERIF_C07_FAMILY=" + only)
+	}
+	forEachProgram(r, fams, nil, func(p *prog) { c07Program(r, p) })
 	c := fam.At(fam.Count / 2)
 	r.Sample(map[string]any{"shape": c.Sig, "source": wgen.Print(c.Mod)})
 	printKeys(r)
-	return r.Finish("every host-shareable type tree of F3 (leaves: 3 scalars, 5 vectors, all 9 matCxR; arrays n=1,2,3 and runtime-sized; structs of 1-3 members over a 10-type alphabet, each plain and with one @align(16/32) or @size(+4/+16) attribute; nesting over a 6-type alphabet incl. inner structs carrying @align/@size; thorough adds all triples and a third nesting level) in storage and, where WGSL allows, uniform space. Static: IR member offsets/spans/strides and SPIR-V Offset/ArrayStride/MatrixStride decorations (v1.0 and v1.4) equal the reference WGSL layout. Dynamic: a probe program reads every leaf scalar and copies the whole value (direct, member-wise, via function/private/workgroup variables); the source buffer holds a distinct sentinel per word; the emitted SPIR-V/HLSL/MSL/GLSL is executed by the independent interpreters (which address memory by the emitted code's own layout) and compared with the reference evaluator. distinct = distinct output buffers",
-		[]string{"reference layout: internal/wgen/layout.go (WGSL spec, Memory Layout); f16 and atomics are not in the enumerated alphabet (documented limit)",
+	return r.Finish("every host-shareable type tree of F3 (leaves: 3 scalars, 5 vectors, all 9 matCxR; arrays n=1,2,3 and runtime-sized; structs of 1-3 members over a 10-type alphabet, each plain and with one @align(16/32) or @size(+4/+16) attribute; nesting over a 6-type alphabet incl. inner structs carrying @align/@size; thorough adds all triples and a third nesting level) in storage and, where WGSL allows, uniform space. Static: IR member offsets/spans/strides and SPIR-V Offset/ArrayStride/MatrixStride decorations (v1.0 and v1.4) equal the reference WGSL layout. Dynamic: a probe program reads every leaf scalar and copies the whole value (direct, member-wise, via function/private/workgroup variables); the source buffer holds a distinct sentinel per word; the emitted SPIR-V/HLSL/MSL/GLSL is executed by the independent interpreters (which address memory by the emitted code's own layout) and compared with the reference evaluator. distinct = distinct output buffers. F3x (static only, never executed): struct shapes over 24 leaf types {f16, vec2/3/4<f16>, all 9 matCxR<f16>, f32, vec2/3/4<f32>, i32, atomic<u32>, atomic<i32>, 4 matCxR<f32>}, arrays of them (n=1,2,3), runtime-sized tails and nested structs: all 1-member structs x every @align in {natural,2x,16,32,256} x @size in {natural,+4,+16}; all ordered pairs of leaves x 20 attribute placements and all (array,leaf)/(leaf,array)/(leaf,runtime array) pairs x 4; all triples over a 12-type alphabet and all quadruples over a 6-type alphabet with one attribute on each member in turn (thorough: triples of all leaves, quadruples of the 12, 5- and 6-member structs over 4 types); inner structs of 1-2 members with inner attributes in 6 placements; and the spelling family: every @align value (also 4096, 65536) / @size value (also +252, +65532) / align+size pair in both orders on the member at position 0,1,2 over 7 member types x 19 spellings of the const-expression argument (decimal, u/i suffix, hex, hex with suffix, 0X, parenthesised, product, sum, shift, u32() conversion, trailing comma, inner spaces, inner comment, module const declared before / after the struct, typed u32 / i32 const, expression over a const). Each shape in storage (read and read_write globals), uniform (WGSL-valid subset) and workgroup (quick: every fourth shape) placement. Observed against the reference layout wref.Layout: ir.Module.Types (offsets, spans, strides, lengths, scalar widths, ir.TypeSize), SPIR-V Offset/ArrayStride/MatrixStride and type shapes (v1.0, v1.4), the C++ layout of the MSL struct declarations (member offsets, sizeof, array element size, matrix column size, member type class), HLSL cbuffer packing of uniform globals (32-bit types), the byte ranges of the constant-address Load/Store accesses the HLSL text makes on storage buffers (every corner leaf read, and written in the read_write global), and std430/std140 placement of the GLSL blocks",
+		[]string{"reference layout: internal/wgen/layout.go for F3, internal/wref/layoutx.go for F3x (WGSL spec, Memory Layout; DESIGN Appendix C.2); f16 and atomics are enumerated only in the static family F3x (the interpreters do not execute 16-bit floats)",
+			"F3x limits (counted under skipped): HLSL constant buffers holding 16-bit types are not laid out by the reader (the packing of half is not modelled); when the IR layout of a case already differs from the WGSL layout the backends are not judged for that case; matCx2 uniform members that the HLSL backend splits into columns are not matched by name",
 			"workgroup/private/function copies have no host-visible layout: they are checked only through the round trip"})
 }
